@@ -197,6 +197,22 @@ func (p *IdentityProvider) ssoHandleFunc(w http.ResponseWriter, r *http.Request)
 		},
 	)
 
+	// only accept requests which can be answered later on
+	checkerInstance.WithLogicStep(
+		func() error {
+			switch response.ProtocolBinding {
+			case RedirectBinding, PostBinding:
+				return nil
+			default:
+				err = fmt.Errorf("unsupported binding: %s", response.ProtocolBinding)
+				return err
+			}
+		},
+		func() {
+			response.sendBackResponse(r, w, response.makeFailedResponse(StatusCodeUnsupportedBinding, err.Error(), p.TimeFormat))
+		},
+	)
+
 	checkerInstance.WithLogicStep(
 		checkRequestRequiredContent(
 			func() *md.IDPSSODescriptorType { return metadata },
